@@ -41,6 +41,9 @@ CLAIMED = {
  'C17': dict(engine='symexec', technique='bounded symbolic execution of the real get_slice / dedrift / integrate / spectrum / timeseries / from_data on symbolic data, symbolic integer slice bounds and a symbolic real drift rate (forked over rounded row offsets, completeness query); SMT decides data/axis registration and inherited attributes',
              text='For shapes up to 3x5 (thorough 4x8), both orientations: for EVERY 0 <= l < r <= fchans the slice holds exactly columns l..r-1 of data and frequency axis; for EVERY real drift rate up to one channel beyond the limit (either sign, explicit or from metadata) row i is the parent row shifted by round(|d| i dt/df) towards the drift start, row 0 keeps its frequencies, width is fchans - max offset, rates leaving no channels raise ValueError and no others do, a linear path deviates by at most half a channel; integration equals per-column/row mean or sum and the wrappers carry the parent axis; all derived frames inherit orientation, resolutions, start time, source name, and are copies.',
              note='de-drift on dyadic geometries; normalize=True outside; exact reals', ref='DESIGN.md section 4 C17'),
+ 'C20': dict(engine='symexec+slices', technique='bounded symbolic execution of the real constructor / get_num_blocks / helpers with symbolic integer sizes and real rates/durations; AST slice of record()\'s length section executed with symbolic requested and available block counts; delta model of binary64 for duration->blocks and total-sample rounding; SMT decides each identity',
+             text='For every windows-per-block count k >= 1 and sample rate > 0 (6 size configurations): samples_per_block*(ants*chans*bytes) = block_size, time_per_block = spb*P/rate; for every duration up to 1e6 s the block count is the whole number of blocks not exceeding it (exact, and in binary64 within the stated 1e-9 boundary tolerance); for every requested and available block count <= 1e6 the recorded count is their minimum and obs_length / total_obs_num_samples equal n*time_per_block / n*spb*P (bit-exact in the delta model); executed recordings of 1..3 blocks draw exactly n*spb*P + taps*P samples, advance the clock accordingly and write SCANLEN / PKTSTART / PKTSTOP consistently; the stand-alone helpers agree with the backend on symbolic inputs.',
+             note='durations on a concrete dyadic rate; quantisers abstracted as in C02', ref='DESIGN.md section 4 C20'),
 }
 NA = {}
 
